@@ -83,17 +83,26 @@ func OpenChainIndex(fs billy.Filesystem) (Index, error) {
 	for _, hash := range chain {
 		file, err := fs.Open(path.Join("objects", "info", "commit-graphs", "graph-"+hash+".graph"))
 		if err != nil {
-			// Ignore all other file closing errors and return the error from opening the last file in the graph
-			_ = index.Close()
+			// Ignore all other file closing errors and return the error from opening the last file in the graph.
+			// index is still nil when the first graph of the chain is missing.
+			if index != nil {
+				_ = index.Close()
+			}
 			return nil, err
 		}
 
-		index, err = OpenFileIndexWithParent(file, index)
+		next, err := OpenFileIndexWithParent(file, index)
 		if err != nil {
-			// Ignore file closing errors and return the error from OpenFileIndex instead
-			_ = index.Close()
+			// Ignore file closing errors and return the error from OpenFileIndex instead.
+			// The failed call returns a nil Index: close the file it was given and the
+			// part of the chain opened so far (nil for the first graph).
+			_ = file.Close()
+			if index != nil {
+				_ = index.Close()
+			}
 			return nil, err
 		}
+		index = next
 	}
 
 	return index, nil
